@@ -1,5 +1,6 @@
 mod c01;
 mod c02;
+mod c03;
 mod c11;
 mod c14;
 mod c18;
@@ -38,6 +39,7 @@ fn main() {
         "C18" => c18::run(seed, n, &mut out, args.get(5).map(|s| s.as_str()).unwrap_or("quick")),
         "PARSE" => c11::run_parse(seed, n, &mut out),
         "C02" => c02::run(seed, n, &mut out, args.get(5).map(|s| s.as_str()).unwrap_or("quick")),
+        "C03" => c03::run(seed, n, &mut out, args.get(5).map(|s| s.as_str()).unwrap_or("quick")),
         "C13" => targeted::run_c13(seed, n, &mut out),
         "C15" => targeted::run_c15(seed, n, &mut out),
         _ => {
